@@ -607,6 +607,10 @@ class BeltStore(Store):
 
         # Add the item if space is available
         if len(self.items)+len(self.ready_items) < self.capacity:
+            # the admission test of the next reserve_put reads these fields; the item's move process only sets them
+            # once the kernel starts it, which is too late for a caller that asks again without yielding in between
+            item[0].total_interruption_time = 0
+            item[0].interruption_start_time = None
             self.items.append(item)
             self._update_time_averaged_level()
             #self.env.process(self.move_to_ready_items(item))
